@@ -195,6 +195,13 @@ pub const TYPED_KINDS: &[&str] = &[
     "v1_trailing",
     "trans_idx_oob",
     "trans_unsorted",
+    "footer_extra_line",
+    "footer_junk_char",
+    "h1_typecnt_zero",
+    "h1_charcnt_zero",
+    "h1_isstdcnt_bad",
+    "h1_isutcnt_bad",
+    "footer_big_number",
 ];
 
 fn eff<'a>(f: &'a mut RawFile) -> &'a mut RawBlock {
@@ -404,6 +411,106 @@ pub fn typed(orig: &RawFile, kind: &str, arg: u64) -> Option<Vec<u8>> {
                 return None;
             }
             s.footer.truncate(1);
+        }
+        "footer_extra_line" => {
+            // a second line inside the footer: NL TZ-string NL more NL
+            let s = f.second.as_mut()?;
+            if s.footer.len() < 3 || s.footer.last() != Some(&b'\n') {
+                return None;
+            }
+            let extra: &[u8] = [&b"GARBAGE"[..], b"UTC0", b"CET-1", b"x"][a % 4];
+            let l = s.footer.len();
+            if (a / 4) % 2 == 0 {
+                s.footer.extend_from_slice(extra);
+                s.footer.push(b'\n');
+            } else {
+                let mut ins = extra.to_vec();
+                ins.push(b'\n');
+                let tail = s.footer.split_off(1);
+                s.footer.extend_from_slice(&ins);
+                s.footer.extend_from_slice(&tail);
+                let _ = l;
+            }
+        }
+        "footer_big_number" => {
+            // one numeric field of the footer's TZ string replaced by a number far outside every
+            // field's range (no field of the grammar admits a value above 365)
+            let s = f.second.as_mut()?;
+            let mut runs: Vec<(usize, usize)> = Vec::new();
+            let mut quoted = false;
+            let mut i = 0;
+            while i < s.footer.len() {
+                let c = s.footer[i];
+                if c == b'<' {
+                    quoted = true;
+                } else if c == b'>' {
+                    quoted = false;
+                } else if c.is_ascii_digit() && !quoted {
+                    let st = i;
+                    while i < s.footer.len() && s.footer[i].is_ascii_digit() {
+                        i += 1;
+                    }
+                    runs.push((st, i));
+                    continue;
+                }
+                i += 1;
+            }
+            if runs.is_empty() {
+                return None;
+            }
+            let (st, en) = runs[a % runs.len()];
+            let big: &[u8] = [&b"596524"[..], b"2147483647", b"4294967296", b"65536", b"596523", b"9223372036854775807", b"32768", b"1000"][(a / runs.len()) % 8];
+            s.footer.splice(st..en, big.iter().copied());
+        }
+        "footer_junk_char" => {
+            let s = f.second.as_mut()?;
+            if s.footer.len() < 3 || s.footer.last() != Some(&b'\n') {
+                return None;
+            }
+            let c = [b';', b'!', b'*', b'=', b'?'][a % 5];
+            let l = s.footer.len();
+            s.footer.insert(l - 1, c);
+        }
+        "h1_typecnt_zero" | "h1_charcnt_zero" | "h1_isstdcnt_bad" | "h1_isutcnt_bad" => {
+            // the first header of a version 2+ file violates the count rules, with the 32-bit
+            // block kept structurally consistent with the counts it states
+            f.second.as_ref()?;
+            let b = &mut f.b1;
+            match kind {
+                "h1_typecnt_zero" => {
+                    b.typecnt = 0;
+                    b.ttinfo.clear();
+                    b.timecnt = 0;
+                    b.times.clear();
+                    b.idx.clear();
+                    b.isstdcnt = 0;
+                    b.isstd.clear();
+                    b.isutcnt = 0;
+                    b.isut.clear();
+                    if a % 2 == 0 {
+                        b.charcnt = 0;
+                        b.chars.clear();
+                    }
+                }
+                "h1_charcnt_zero" => {
+                    b.charcnt = 0;
+                    b.chars.clear();
+                }
+                _ => {
+                    let tc = b.typecnt;
+                    let newc = if a % 2 == 0 || tc < 2 { tc + 1 + (a as u32 / 2) % 3 } else { 1 + (a as u32 / 2) % (tc - 1) };
+                    if newc == tc || newc == 0 {
+                        return None;
+                    }
+                    if kind == "h1_isutcnt_bad" {
+                        b.isutcnt = newc;
+                        b.isut = vec![0; newc as usize];
+                    } else {
+                        b.isstdcnt = newc;
+                        b.isstd = vec![0; newc as usize];
+                    }
+                }
+            }
         }
         "v1_trailing" => {
             if f.second.is_some() {
